@@ -33,17 +33,103 @@ def Profile.has (p : Profile) (s : UInt8) : Bool :=
 def sepNec (p : Profile) (sep : Option UInt8) : Bool :=
   Gen.allSeparators.all (fun s => (sep == some s) || !p.has s)
 
-/-- necessary condition for `check_case_constraint` -/
-def caseNec (p : Profile) : CaseConstraint → Bool
+/-- scanning a text word by word (words = maximal space-free runs): some byte after the first is an upper-case letter
+    inside a word, or a byte right after a space is not an upper-case letter.  `a` is the preceding byte. -/
+def badAfter (a : UInt8) : Bytes → Bool
+  | [] => false
+  | b :: r => (if a == 32 then !isUpper b else isUpper b) || badAfter b r
+
+/-- the *word bit* of a text: it cannot be a sequence of capitalised words -/
+def wordBadOf : Bytes → Bool
+  | [] => false
+  | c :: cs => badAfter c cs
+
+/-- the per-word test of `TitleWordsPattern` -/
+def okWord (w : Bytes) : Bool :=
+  match w with
+  | [] => false
+  | c :: cs => isUpper c && cs.all (fun x => isLower x || !isAlpha x)
+
+theorem okWord_head {b : UInt8} {post : Bytes} (h : okWord (b :: post) = true) : isUpper b = true := by
+  simp only [okWord, Bool.and_eq_true] at h; exact h.1
+
+theorem okWord_mid {pre post : Bytes} {b : UInt8} (hne : pre ≠ []) (h : okWord (pre ++ b :: post) = true) :
+    isUpper b = false := by
+  obtain ⟨p, pre', rfl⟩ := List.exists_cons_of_ne_nil hne
+  simp only [List.cons_append, okWord, Bool.and_eq_true, List.all_eq_true] at h
+  have := h.2 b (by simp)
+  simp only [Bool.or_eq_true, Bool.not_eq_true'] at this
+  cases hu : isUpper b with
+  | false => rfl
+  | true =>
+    rcases this with hl | ha
+    · rw [upper_not_lower hu] at hl; exact absurd hl (by decide)
+    · simp only [isAlpha, hu, Bool.true_or] at ha; exact absurd ha (by decide)
+
+/-- `TitleWordsPattern` on the pieces of `split(' ')` forces the word bit to be clear -/
+theorem titleWords_go : ∀ (s cur : Bytes), (∀ x ∈ cur, (x == 32) = false) →
+    (splitOn.go 32 s cur).all okWord = true → badAfter (cur.head?.getD 32) s = false
+  | [], _, _, _ => rfl
+  | b :: r, cur, hcur, h => by
+    by_cases hb : (b == 32) = true
+    · have hb32 : b = 32 := by simpa using hb
+      subst hb32
+      have hgo : splitOn.go 32 (32 :: r) cur = cur.reverse :: splitOn.go 32 r [] := by simp [splitOn.go]
+      rw [hgo, List.all_cons, Bool.and_eq_true] at h
+      have ih := titleWords_go r [] (by simp) h.2
+      simp only [List.head?_nil, Option.getD_none] at ih
+      cases cur with
+      | nil => exact absurd h.1 (by simp [okWord])
+      | cons a cur' =>
+        have ha : (a == 32) = false := hcur a (List.mem_cons_self ..)
+        simp only [badAfter, List.head?_cons, Option.getD_some, ha, Bool.false_eq_true, ↓reduceIte, ih, Bool.or_false]
+        decide
+    · have hb' : (b == 32) = false := by simpa using hb
+      have hgo : splitOn.go 32 (b :: r) cur = splitOn.go 32 r (b :: cur) := by simp [splitOn.go, hb']
+      rw [hgo] at h
+      have hcur' : ∀ x ∈ b :: cur, (x == 32) = false := by
+        intro x hx
+        rcases List.mem_cons.mp hx with rfl | hx
+        · exact hb'
+        · exact hcur x hx
+      have ih := titleWords_go r (b :: cur) hcur' h
+      simp only [List.head?_cons, Option.getD_some] at ih
+      obtain ⟨ps, hp⟩ := splitOn_go_first r (b :: cur)
+      rw [hp, List.all_cons, Bool.and_eq_true] at h
+      have hpiece := h.1
+      rw [List.reverse_cons, List.append_assoc, List.singleton_append] at hpiece
+      cases cur with
+      | nil =>
+        simp only [List.reverse_nil, List.nil_append] at hpiece
+        simp only [badAfter, List.head?_nil, Option.getD_none, beq_self_eq_true, ↓reduceIte, okWord_head hpiece,
+          Bool.not_true, Bool.false_or, ih]
+      | cons a cur' =>
+        have ha : (a == 32) = false := hcur a (List.mem_cons_self ..)
+        have hne : (a :: cur').reverse ≠ [] := by simp
+        simp only [badAfter, List.head?_cons, Option.getD_some, ha, Bool.false_eq_true, ↓reduceIte,
+          okWord_mid hne hpiece, Bool.false_or, ih]
+
+theorem checkCase_titleWords_wordBad {A : Acr} {text : Bytes} (h : checkCase A text .titleWordsPattern = true) :
+    wordBadOf text = false := by
+  cases text with
+  | nil => rfl
+  | cons c cs =>
+    have h' : (splitOn.go 32 (c :: cs) []).all okWord = true := h
+    have := titleWords_go (c :: cs) [] (by simp) h'
+    simp only [List.head?_nil, Option.getD_none, badAfter, beq_self_eq_true, ↓reduceIte, Bool.or_eq_false_iff] at this
+    exact this.2
+
+/-- necessary condition for `check_case_constraint`; `wb` = the word bit of the text -/
+def caseNec (p : Profile) (wb : Bool) : CaseConstraint → Bool
   | .allUppercase => !p.lo
   | .allLowercase => !p.up
   | .titlePattern => p.firstUp && !p.tailUp
   | .camelPattern => p.firstLo
   | .pascalPattern => p.firstUp
-  | .titleWordsPattern => p.firstUp
+  | .titleWordsPattern => p.firstUp && !wb
 
-def nec (p : Profile) (st : Style) : Bool :=
-  caseNec p (Gen.styleConstraints st).1 && sepNec p (Gen.styleConstraints st).2
+def nec (p : Profile) (wb : Bool) (st : Style) : Bool :=
+  caseNec p wb (Gen.styleConstraints st).1 && sepNec p (Gen.styleConstraints st).2
 
 theorem has_le_contains {x : Bytes} {p : Profile} (hp : HasProfile x p) (s : UInt8) (h : p.has s = true) :
     contains x s = true := by
@@ -59,8 +145,8 @@ theorem has_le_contains {x : Bytes} {p : Profile} (hp : HasProfile x p) (s : UIn
         · rename_i hs; rw [beq_iff_eq] at hs; subst hs; rw [h4]; exact h
         · exact absurd h (by decide)
 
-theorem canMatch_nec {A : Acr} {x : Bytes} {p : Profile} (hp : HasProfile x p) {st : Style}
-    (h : canMatchStyle A x st = true) : nec p st = true := by
+theorem canMatch_nec {A : Acr} {x : Bytes} {p : Profile} {wb : Bool} (hp : HasProfile x p) (hw : wordBadOf x = wb)
+    {st : Style} (h : canMatchStyle A x st = true) : nec p wb st = true := by
   simp only [canMatchStyle, Bool.and_eq_true] at h
   simp only [nec, Bool.and_eq_true]
   constructor
@@ -74,7 +160,9 @@ theorem canMatch_nec {A : Acr} {x : Bytes} {p : Profile} (hp : HasProfile x p) {
       simp only [caseNec, ← h7, ← h9, this.1, this.2, Bool.not_false, Bool.and_self]
     | camelPattern => simp only [caseNec, ← h8]; exact checkCase_camel h.1
     | pascalPattern => simp only [caseNec, ← h7]; exact (checkCase_pascal h.1).1
-    | titleWordsPattern => simp only [caseNec, ← h7]; exact checkCase_titleWords h.1
+    | titleWordsPattern =>
+      simp only [caseNec, ← h7, ← hw, checkCase_titleWords h.1, checkCase_titleWords_wordBad h.1, Bool.not_false,
+        Bool.and_self]
   · have hs := h.2
     simp only [checkSep, sepNec, List.all_eq_true, Bool.or_eq_true, Bool.not_eq_true'] at hs ⊢
     intro s hsm
@@ -86,14 +174,15 @@ theorem canMatch_nec {A : Acr} {x : Bytes} {p : Profile} (hp : HasProfile x p) {
       | true => rw [has_le_contains hp s hh] at h1; exact absurd h1 (by decide)
 
 /-- at most `n` styles are compatible with a text whose profile admits at most `n` -/
-theorem filterCompatible_length_le {A : Acr} {x : Bytes} {p : Profile} (hp : HasProfile x p) (styles : List Style) :
-    (filterCompatible A x styles).length ≤ (styles.filter (nec p)).length := by
+theorem filterCompatible_length_le {A : Acr} {x : Bytes} {p : Profile} {wb : Bool} (hp : HasProfile x p)
+    (hw : wordBadOf x = wb) (styles : List Style) :
+    (filterCompatible A x styles).length ≤ (styles.filter (nec p wb)).length := by
   induction styles with
   | nil => exact Nat.le_refl _
   | cons st l ih =>
     simp only [filterCompatible, List.filter_cons] at ih ⊢
     by_cases hc : canMatchStyle A x st = true
-    · simp only [hc, canMatch_nec hp hc, ↓reduceIte, List.length_cons]; omega
+    · simp only [hc, canMatch_nec hp hw hc, ↓reduceIte, List.length_cons]; omega
     · simp only [hc, Bool.false_eq_true, ↓reduceIte]
       split
       · simp only [List.length_cons]; omega
@@ -260,5 +349,175 @@ theorem render_profile (A : Acr) {ws : List Bytes} (h2 : 2 ≤ ws.length) (hw : 
     | (match ws, h2 with
        | w :: b :: l, _ =>
          exact profile_sentence (isCap_capitalizeFirst (hw w (List.mem_cons_self ..))) hl.tail)
+
+-- the word bit of each rendering ---------------------------------------------------------------------------------------------
+
+/-- in a text without spaces the word bit is "an upper-case letter after the first byte" -/
+theorem badAfter_no_space : ∀ (s : Bytes) (a : UInt8), (a == 32) = false → (∀ x ∈ s, (x == 32) = false) →
+    badAfter a s = s.any isUpper
+  | [], _, _, _ => rfl
+  | b :: r, a, ha, hs => by
+    simp only [badAfter, ha, Bool.false_eq_true, ↓reduceIte, List.any_cons]
+    rw [badAfter_no_space r b (hs b (List.mem_cons_self ..)) (fun x hx => hs x (List.mem_cons_of_mem _ hx))]
+
+theorem wordBadOf_no_space {x : Bytes} {p : Profile} (hp : HasProfile x p) (hs : p.s = false) :
+    wordBadOf x = p.tailUp := by
+  obtain ⟨_, _, _, h4, _, _, c, cs, rfl, _, _, h9⟩ := hp
+  rw [hs] at h4
+  have hall : ∀ y ∈ c :: cs, (y == 32) = false := by
+    intro y hy
+    cases hy32 : y == 32 with
+    | false => rfl
+    | true =>
+      have : contains (c :: cs) 32 = true := List.any_eq_true.mpr ⟨y, hy, hy32⟩
+      rw [h4] at this; exact absurd this (by decide)
+  show badAfter c cs = p.tailUp
+  rw [badAfter_no_space cs c (hall c (List.mem_cons_self ..)) (fun y hy => hall y (List.mem_cons_of_mem _ hy)), h9]
+
+/-- the last byte of `a :: s` -/
+def lastD (a : UInt8) : Bytes → UInt8
+  | [] => a
+  | b :: r => lastD b r
+
+theorem lastD_ne_space : ∀ (s : Bytes) (a : UInt8), (a == 32) = false → (∀ x ∈ s, (x == 32) = false) →
+    (lastD a s == 32) = false
+  | [], _, ha, _ => ha
+  | b :: r, _, _, hs => lastD_ne_space r b (hs b (List.mem_cons_self ..)) (fun x hx => hs x (List.mem_cons_of_mem _ hx))
+
+/-- a defect further right stays a defect -/
+theorem badAfter_append_right : ∀ (s t : Bytes) (a : UInt8), badAfter (lastD a s) t = true → badAfter a (s ++ t) = true
+  | [], _, _, h => h
+  | b :: r, t, a, h => by
+    simp only [List.cons_append, badAfter, Bool.or_eq_true]
+    exact Or.inr (badAfter_append_right r t b h)
+
+theorem lower_ne_space {x : UInt8} (h : isLower x = true) : (x == 32) = false := by
+  cases h32 : x == 32 with
+  | false => rfl
+  | true => rw [beq_iff_eq] at h32; subst h32; exact absurd h (by decide)
+
+theorem upper_ne_space {x : UInt8} (h : isUpper x = true) : (x == 32) = false := by
+  cases h32 : x == 32 with
+  | false => rfl
+  | true => rw [beq_iff_eq] at h32; subst h32; exact absurd h (by decide)
+
+/-- a run of lower-case letters is transparent -/
+theorem badAfter_lowers : ∀ (s t : Bytes) (a : UInt8), (a == 32) = false → (∀ x ∈ s, isLower x = true) →
+    badAfter a (s ++ t) = badAfter (lastD a s) t
+  | [], _, _, _, _ => rfl
+  | b :: r, t, a, ha, hs => by
+    have hb := hs b (List.mem_cons_self ..)
+    simp only [List.cons_append, badAfter, ha, Bool.false_eq_true, ↓reduceIte, lower_not_upper hb, Bool.false_or, lastD]
+    exact badAfter_lowers r t b (lower_ne_space hb) (fun x hx => hs x (List.mem_cons_of_mem _ hx))
+
+theorem isUpper_space : isUpper (32 : UInt8) = false := by decide
+
+/-- what follows a word in a space-joined list -/
+def tailJoin : List Bytes → Bytes
+  | [] => []
+  | r :: rs => 32 :: joinWith [32] (r :: rs)
+
+/-- capitalised words joined by spaces have a clear word bit -/
+theorem badAfter_caps : ∀ (rs : List Bytes), (∀ r ∈ rs, IsCap r) → ∀ (u : UInt8) (t : Bytes), isUpper u = true →
+    (∀ x ∈ t, isLower x = true) →
+    badAfter u (t ++ tailJoin rs) = false
+  | [], _, u, t, hu, ht => by
+    simp only [tailJoin, List.append_nil]
+    rw [badAfter_no_space t u (upper_ne_space hu) (fun x hx => lower_ne_space (ht x hx))]
+    exact any_upper_of_lower ht
+  | r :: rs, h, u, t, hu, ht => by
+    obtain ⟨v, l0, l', rfl, hv, hl⟩ := h r (List.mem_cons_self ..)
+    have hlast := lastD_ne_space t u (upper_ne_space hu) (fun x hx => lower_ne_space (ht x hx))
+    have ih := badAfter_caps rs (fun x hx => h x (List.mem_cons_of_mem _ hx)) v (l0 :: l') hv hl
+    have hX : (32 :: joinWith [32] ((v :: l0 :: l') :: rs)) =
+        32 :: v :: ((l0 :: l') ++ tailJoin rs) := by
+      cases rs with
+      | nil => simp [joinWith, tailJoin]
+      | cons r2 rs2 => simp [joinWith_cons_cons, tailJoin]
+    show badAfter u (t ++ (32 :: joinWith [32] ((v :: l0 :: l') :: rs))) = false
+    rw [badAfter_lowers t _ u (upper_ne_space hu) ht, hX]
+    simp only [badAfter, hlast, Bool.false_eq_true, ↓reduceIte, isUpper_space, Bool.false_or, beq_self_eq_true, hv,
+      Bool.not_true]
+    exact ih
+
+/-- the word bit of a multi-word rendering, style by style -/
+def styleWordBad : Style → Bool
+  | .title => false
+  | .sentence | .lowerSentence | .upperSentence => true
+  | st => (profileOf st).tailUp
+
+/-- a word that does not start with a capital right after the first space -/
+theorem badAfter_second_word {a b0 : UInt8} (pre post : Bytes) (hb0 : isUpper b0 = false) :
+    badAfter a (pre ++ 32 :: b0 :: post) = true := by
+  apply badAfter_append_right
+  simp only [badAfter, beq_self_eq_true, ↓reduceIte, hb0, Bool.not_false, Bool.true_or, Bool.or_true]
+
+theorem join_second (a : Bytes) (b0 : UInt8) (b' : Bytes) (l : List Bytes) :
+    ∃ post, joinWith [32] (a :: (b0 :: b') :: l) = a ++ 32 :: b0 :: post := by
+  cases l with
+  | nil => exact ⟨b', by simp [joinWith]⟩
+  | cons l1 l2 => exact ⟨b' ++ [32] ++ joinWith [32] (l1 :: l2), by simp [joinWith_cons_cons]⟩
+
+theorem wordBad_lowerSentence {ws : List Bytes} (h2 : 2 ≤ ws.length) (h : LowerWords ws) :
+    wordBadOf (joinWith [32] ws) = true := by
+  match ws, h2 with
+  | w :: b :: l, _ =>
+    obtain ⟨c, a', rfl⟩ := List.exists_cons_of_ne_nil (h w (List.mem_cons_self ..)).1
+    obtain ⟨b0, b', rfl⟩ := List.exists_cons_of_ne_nil (h b (List.mem_cons_of_mem _ (List.mem_cons_self ..))).1
+    obtain ⟨post, hp⟩ := join_second (c :: a') b0 b' l
+    rw [hp]
+    exact badAfter_second_word a' post
+      (lower_not_upper ((h _ (List.mem_cons_of_mem _ (List.mem_cons_self ..))).2 b0 (List.mem_cons_self ..)))
+
+theorem wordBad_sentence {r w : Bytes} {l : List Bytes} (hr : IsCap r) (h : LowerWords (w :: l)) :
+    wordBadOf (joinWith [32] (r :: w :: l)) = true := by
+  obtain ⟨u, l0, l', rfl, _, _⟩ := hr
+  obtain ⟨b0, b', rfl⟩ := List.exists_cons_of_ne_nil (h w (List.mem_cons_self ..)).1
+  obtain ⟨post, hp⟩ := join_second (u :: l0 :: l') b0 b' l
+  rw [hp]
+  exact badAfter_second_word (l0 :: l') post (lower_not_upper ((h _ (List.mem_cons_self ..)).2 b0 (List.mem_cons_self ..)))
+
+theorem wordBad_upperSentence {ws : List Bytes} (h2 : 2 ≤ ws.length) (h : Words ws) :
+    wordBadOf (joinWith [32] (ws.map upper)) = true := by
+  match ws, h2 with
+  | w :: b :: l, _ =>
+    obtain ⟨hlen, hw⟩ := h w (List.mem_cons_self ..)
+    match w, hlen, hw with
+    | c0 :: c1 :: w', _, hw =>
+      have hc0 := hw c0 (List.mem_cons_self ..)
+      have hc1 := hw c1 (List.mem_cons_of_mem _ (List.mem_cons_self ..))
+      show badAfter (toUpper c0) ((toUpper c1 :: upper w') ++ [32] ++ joinWith [32] (upper b :: l.map upper)) = true
+      simp only [List.cons_append, badAfter, upper_ne_space (toUpper_of_lower hc0), Bool.false_eq_true, ↓reduceIte,
+        toUpper_of_lower hc1, Bool.true_or]
+
+theorem wordBad_title {rs : List Bytes} (h2 : 2 ≤ rs.length) (h : ∀ r ∈ rs, IsCap r) :
+    wordBadOf (joinWith [32] rs) = false := by
+  match rs, h2 with
+  | r :: b :: l, _ =>
+    obtain ⟨u, l0, l', rfl, hu, hlo⟩ := h r (List.mem_cons_self ..)
+    have := badAfter_caps (b :: l) (fun x hx => h x (List.mem_cons_of_mem _ hx)) u (l0 :: l') hu hlo
+    rw [joinWith_cons_cons]
+    simpa [wordBadOf, tailJoin, List.append_assoc] using this
+
+theorem render_wordBad (A : Acr) {ws : List Bytes} (h2 : 2 ≤ ws.length) (hw : Words ws) {st : Style} (hst : st ∈ V12) :
+    wordBadOf (toStyle A ws st) = styleWordBad st := by
+  have hp := render_profile A h2 hw hst
+  have hl := hw.lowerWords
+  by_cases hs : (profileOf st).s = false
+  · rw [wordBadOf_no_space hp hs]
+    cases st <;> first
+      | rfl
+      | exact absurd hs (by decide)
+  · rw [toStyle_words A hl]
+    have h2c : 2 ≤ (ws.map capitalizeFirst).length := by rw [List.length_map]; exact h2
+    cases st <;> first
+      | exact absurd rfl hs
+      | exact absurd hst (by decide)
+      | exact wordBad_lowerSentence h2 hl
+      | exact wordBad_upperSentence h2 hw
+      | exact wordBad_title h2c (caps_of_words hw)
+      | (match ws, h2 with
+         | w :: b :: l, _ =>
+           exact wordBad_sentence (isCap_capitalizeFirst (hw w (List.mem_cons_self ..))) hl.tail)
 
 end LinePipeline
